@@ -51,7 +51,7 @@ mod proofs {
         std::mem::forget(dec); std::mem::forget(ctx);
     }
 
-    // @harness id=C01 tier=thorough unwind=10 timeout=2400 fs=4096
+    // @harness id=C01 tier=thorough unwind=10 timeout=3600 fs=4096
     // @desc BGV decryption of an ARBITRARY size-2 NTT-form ciphertext returns, coefficient-wise, the centred phase reduced modulo t (times the inverse correction factor), and the plaintext is trimmed to its LEADING non-zero coefficient (a zero coefficient below the leading one is kept), never below one coefficient
     // @bounds BGV N=2, q={97}, t=17; all ciphertext residues (given in NTT form); secret key s = 1 - X (concrete); correction factor 1 or 3 (symbolic choice)
     // @funcs Decryptor::decrypt, Decryptor::bgv_decrypt, Decryptor::dot_product_ct_sk_array, RNSTool::decrypt_mod_t, BaseConverter::exact_convey_array, polysmallmod::{intt_p,multiply_scalar_inplace}, get_significant_uint64_count_uint, Plaintext::resize
@@ -228,7 +228,7 @@ mod proofs {
         std::mem::forget(dec); std::mem::forget(ctx);
     }
 
-    // @harness id=C07 tier=thorough unwind=10 timeout=2400 fs=4096
+    // @harness id=C07 tier=thorough unwind=10 timeout=3600 fs=4096
     // @desc invariant_noise_budget(ct) equals the definition evaluated exactly: budget = max(0, bits(q) - bits(max_i |t*phase_i mod q|_centered) - 1) for the phase under the secret key, for EVERY ciphertext/key (also those with zero budget)
     // @bounds BFV N=2, q={97}, t=3; all ciphertext residues; secret key s = 1 - X
     // @funcs Decryptor::invariant_noise_budget, Decryptor::dot_product_ct_sk_array, poly_infty_norm, RNSBase::compose_array, half_round_up_uint, get_significant_bit_count_uint
